@@ -226,7 +226,7 @@ impl Base {
         let copy = self.store.deep_copy();
         let clock = Arc::new(ManualClock::new(self.now));
         let node = build_node(&self.cfg, &copy, clock.clone())?;
-        Ok(World { cfg: self.cfg.clone(), store: copy, clock, node, restarts: 0, external: Default::default() })
+        Ok(World { cfg: self.cfg.clone(), store: copy, clock, node, restarts: 0, external: Default::default(), last_mutations: Default::default() })
     }
 
     fn exec(&self, world: &World, secp: &Secp256k1<All>, req: &Req) -> String {
